@@ -30,11 +30,23 @@ func (fr *frame) invoke(st *PState, c *ssa.CallCommon, recv Val, args []Val, k f
 	// KV store views and iterators
 	switch r := recv.(type) {
 	case *ViewVal:
+		if fr.depth == 0 && len(fr.top.guardCalls) > 0 {
+			// guards `before[..] KVStore.<Method> requires ...` on direct store accesses (arg_key, arg_value)
+			fr.checkGuards(st, "KVStore."+m, sig, args)
+		}
 		k(st, fr.viewMethod(st, r, m, args, sig))
 		return
 	case *IterVal:
 		k(st, fr.iterMethod(st, r, m, args, sig))
 		return
+	}
+	// guard clauses on interface methods: `before[..] <Iface>).<Method> requires ...` (arg0 = first argument)
+	if fr.depth == 0 && len(fr.top.guardCalls) > 0 {
+		gargs := args
+		if sig.Recv() != nil {
+			gargs = append([]Val{recv}, args...) // go/types gives interface methods a receiver: keep names and values aligned
+		}
+		fr.checkGuards(st, "("+ipkg+"."+iname+")."+m, sig, gargs)
 	}
 	// codec
 	if strings.HasSuffix(ipkg, "cosmos-sdk/codec") && (iname == "BinaryCodec" || iname == "Codec") {
@@ -136,9 +148,6 @@ func (fr *frame) invoke(st *PState, c *ssa.CallCommon, recv Val, args []Val, k f
 	// a contract stated on the interface method itself (external keepers: bank, account, ...)
 	if ct, ok := ex.CS.ByFunc["("+key+")."+m]; ok {
 		recvT := ex.reify(st, recv, c.Value.Type())
-		if fr.depth == 0 {
-			fr.checkGuards(st, "("+key+")."+m, withRecv(sig, c.Value.Type()), append([]Val{recvT}, args...))
-		}
 		// the signature of an interface method has no receiver: name the arguments by position
 		fr.applyContract(st, ct, withRecv(sig, c.Value.Type()), nil, append([]Val{recvT}, args...), k)
 		return
